@@ -70,7 +70,8 @@ def s1(ck, an):
         w = [e for e in f2.effects() if e.kind in "WMD" and e.owner in ("FutureChain", "?", "class:FutureChain")]
         ck.check(not w, "EFFECT", "S1.lead-not-cached", f2.f.short, f2.f.loc, "the lead contract is recomputed on every call (nothing is stored)",
                  f"{f2.f.short} stores {[e.attr for e in w]}: a cached lead can be stale or ignore the month offset", construct=stmt_text(w[0].node) if w else "")
-        r = [e for e in f2.effects() if e.kind == "R" and e.owner == "FutureChain" and e.attr not in ("_last_trading_dates", "_month", "now", "contracts", "_lead_contract_idx")]
+        r = [e for e in f2.effects() if e.kind == "R" and e.owner == "FutureChain" and e.attr not in ("_last_trading_dates", "_month", "now", "contracts", "_lead_contract_idx")
+             and not isinstance(enclosing_stmt(e.node), ast.Raise)]      # what goes into an exception's message does not decide the lead
         ck.check(not r, "DEP", "S1.lead-depends-on-dates-now-offset", f2.f.short, f2.f.loc, "the lead depends only on the last trading dates, now and the month offset", f"{f2.f.short} also reads {[e.attr for e in r]}",
                  construct=stmt_text(r[0].node) if r else "")
     fl = an.fa("FutureChain.lead_contract")
